@@ -110,6 +110,15 @@ def cases(tier, rng):
         cs.append(_h.raw_case(_h.random_script(rng, 16 if thorough else 12, True), "random"))
     for i in range(100 if thorough else 8):
         cs.append(_h.cli_case(_h.random_cli_script(rng, 14 if thorough else 10, i % 2 == 0), "random"))
+    # the set-up of a session ending in every way on every kind of endpoint - the peer leaves without a word or between the requests, is
+    # refused, stalls until its deadline - over in-memory connections that record their Close (a socket nobody refers to any more is closed
+    # by the runtime at the next collection, so descriptor counts do not see it): the server closes the connection, its goroutine ends
+    # (the endpoint scripts of C15, judged here on connection-left-open / goroutine-left only; implementation only)
+    from . import ecases as _e
+    for k, c in enumerate(_e.fixed(rng.fork() if hasattr(rng, "fork") else rng)):
+        cls = c["tags"]["stall"].split("@")[0]
+        if cls in ("fail+stall+good", "stall+expired", "refused", "accept-errors", "accept-errors+shutdown", "loopback+expired") or (cls == "stall" and (thorough or k % 4 == 0)):
+            cs.append(dict(c, model=False, tags=dict(c["tags"], mode="endpoint-setup", n=1)))
     for cn, sn, fates in ((4, 4, ["evclose"]), (4, 4, ["evexpire"]), (4, 4, ["ok #0102", "evclose"])) + (((2, 2, ["evexpire", "evforget"]),) if thorough else ()):
         line = "c17p %d %d %d %s 3" % (cn, sn, len(fates), " ".join(fates))
         cs.append({"line": line, "key": line, "tags": {"carrier": "dns-poll", "n": len(fates), "mode": "dns-close"}})
@@ -133,6 +142,9 @@ def oracle(case, impl):
         return _c17.oracle(case, impl)
     if case["line"].startswith("c02h "):
         return _h.oracle(case, impl, "reclamation")
+    if case["line"].startswith("c15m "):
+        from . import ecases as _e
+        return [(sig, msg) for sig, msg in _e.oracle(case, impl) if sig.split(";")[0] in ("connection-left-open", "goroutine-left", "crash")]
     t = case["tags"]
     if t["mode"].startswith("failed-attempts"):
         p = impl.split()
@@ -194,6 +206,9 @@ def oracle(case, impl):
 
 
 def shrink(case):
+    if case["line"].startswith("c15m "):
+        from . import ecases as _e
+        return (dict(c, model=False) for c in (_e.shrink(case) or []))
     if case["line"].startswith("c02h "):
         return _h.shrink(case)
     return _c17.shrink(case)
